@@ -10,7 +10,7 @@ from bvm import harness, refcodec as R, node as N, vsched
 
 PROP = "C05"
 RULE = ("1..4 submitter tasks x 1..30 messages each via send_message/send_messages (40 B .. >256 KiB aggregate) x "
-        "partial-write scripts (full, fixed 1/7/50/4096 bytes, random, zero-window episodes) x concurrent inbound traffic "
+        "(a third of the plain cases submit some messages again, as the same object or an equal copy) x partial-write scripts (full, fixed 1/7/50/4096 bytes, random, zero-window episodes) x concurrent inbound traffic "
         "(answers and DWRs; paced, or made readable at the instant a send() leaves bytes unwritten) on/off x schedules (round robin; random walk with line-level preemption); oracle: the bytes "
         "accepted by the peer side of the socket decode (reference decoder) into every submitted message exactly once and "
         "byte-identical, per-submitter order preserved, plus only whole node-originated base messages; "
@@ -91,6 +91,12 @@ def execute(acc, case):
                     obj = DiameterMessage.load(enc)[0]
                     submitted[seq] = enc
                     mine.append((seq, obj))
+                    if case.get("repeats") and rng.random() < 0.4:
+                        # the application submits the same message again (a retransmission: the same object, or an equal copy):
+                        # every submission is written, as many times as it was submitted
+                        for _ in range(rng.choice([1, 1, 2])):
+                            mine.append((seq, obj if rng.random() < 0.5 else DiameterMessage.load(enc)[0]))
+                            acc.counters["messages_submitted_again"] += 1
                 per_sub.append([m[0] for m in mine])
                 plans.append(mine)
             # the step budget follows the work the write script imposes (one selector round per accepted fragment)
@@ -194,8 +200,10 @@ def execute(acc, case):
                 acc.violation("outbound-torn-or-interleaved", "%d undecodable frame(s) and %d residue bytes on the wire (write script %s)" % (
                     garbled, len(residue), case["write"]), wit)
             else:
-                dup = sorted({m for m in markers if markers.count(m) > 1})
-                missing = sorted(set(submitted) - set(markers))
+                import collections
+                expected_n = collections.Counter(m for mine in per_sub for m in mine)
+                dup = sorted({m for m in markers if markers.count(m) > expected_n[m]})
+                missing = sorted(m for m in submitted if markers.count(m) < expected_n[m])
                 if dup:
                     key = "outbound-duplicated"
                     if case["write"] != "full":
@@ -264,7 +272,7 @@ def plan(tier, seed):
         cases.append({"seed": seed * 100019 + i, "submitters": rng.choice([1, 1, 2, 3, 4]), "per": rng.choice([1, 2, 3, 5, 10, 30]) if not q else rng.choice([1, 2, 3, 5]),
                       "write": rng.choice(writes), "inbound": rng.choice([0, 0, 2, 5]), "strategy": rng.choice(["rr", "rw", "rw"]),
                       "p": rng.choice([0.02, 0.1, 0.3]), "role": rng.choice(["client", "server"]), "batch": rng.random() < 0.3,
-                      "transport": rng.choice(["TCP", "TCP", "TCP", "SCTP"]), "watchdog": (30, 10 ** 6)[i % 2]})
+                      "transport": rng.choice(["TCP", "TCP", "TCP", "SCTP"]), "watchdog": (30, 10 ** 6)[i % 2], "repeats": i % 3 == 0})
     for i in range(60 if q else 6000):
         # inbound application answers timed to land right after a partial write
         cases.append({"seed": seed * 9973 + i, "submitters": rng.choice([1, 2, 3]), "per": rng.choice([1, 2, 3, 5]),
@@ -312,7 +320,7 @@ def main(tier, seed):
                           ["node-originated CER/CEA/DWR/DWA/DPR/DPA are legal in the outbound stream when they appear whole at message boundaries",
                            "vnet models Linux TCP send(): accepts a prefix or raises BlockingIOError",
                            "quiescence = all queues and buffers empty and two state-machine ticks without change"],
-                          t0, require_counters=("executions", "steps", "partial_sends", "batch_limit_reached", "inbound_injected_on_partial_write", "real_loopback_ok", "submitter_parked_while_others_write", "library_thread_parked_while_messages_are_submitted", "twin_node_executions"))
+                          t0, require_counters=("executions", "steps", "partial_sends", "batch_limit_reached", "inbound_injected_on_partial_write", "messages_submitted_again", "real_loopback_ok", "submitter_parked_while_others_write", "library_thread_parked_while_messages_are_submitted", "twin_node_executions"))
 
 
 def replay(w):
